@@ -14,6 +14,7 @@ package main
 import (
 	"fmt"
 	"strings"
+	"time"
 
 	"verif/engine/report"
 )
@@ -156,6 +157,7 @@ func historyAlphabet() []Case {
 // historySweep runs first (the process-wide state is then untouched) and sequentially
 // (so that state which is not keyed on the inputs cannot make the run nondeterministic).
 func historySweep(r *report.R, thorough bool) {
+	t0 := time.Now()
 	cases := historyAlphabet()
 	n := len(cases)
 	shared := map[string]*api{}
@@ -228,5 +230,5 @@ func historySweep(r *report.R, thorough bool) {
 	}
 	t.flush(r, "")
 	r.Set("sweep_history", map[string]any{"case_alphabet": n, "entry_points": "type 60 (5 headers x 4 offer lists x 3 defaults), format 20, handler 10 (2 API configurations x 5 headers, one shared instance each), encoding 10",
-		"ordered_pairs": n * n, "whole_list_forward_and_backward": 2, "ordered_triples_without_handler": triples})
+		"ordered_pairs": n * n, "whole_list_forward_and_backward": 2, "ordered_triples_without_handler": triples, "wall_s": time.Since(t0).Seconds()})
 }
